@@ -94,25 +94,26 @@ type UserCfg struct {
 }
 
 type WorldCfg struct {
-	Replicas    int       `json:"replicas"`
-	IDP         IDPCfg    `json:"idp"`
-	SPs         []SPCfg   `json:"sps"`
-	Rogue       SPCfg     `json:"rogue"`
-	Users       []UserCfg `json:"users"`
-	UUIDKey     uint64    `json:"uuidKey"`
-	RealUUID    bool      `json:"realUUID,omitempty"`
-	EpochMs     int64     `json:"epochMs"`
-	ParkWrites  bool      `json:"parkWrites,omitempty"`
-	ParkBody    bool      `json:"parkBody,omitempty"`
-	SharedSP    bool      `json:"sharedSP,omitempty"`   // storage hands out one shared *ServiceProvider per registration
-	NilUnknown  bool      `json:"nilUnknown,omitempty"` // storage flavour: an unknown entity is reported as (nil, nil) instead of an error
-	Presessions []Preseed `json:"presessions,omitempty"`
-	CtxAware    bool      `json:"ctxAware,omitempty"`   // storage flavour: a call whose context is done when it gets to run returns the context's error
-	TenantKeys  bool      `json:"tenantKeys,omitempty"` // storage flavour: signing keys are per tenant, found through the issuer value of the context
-	OwnSlices   bool      `json:"ownSlices,omitempty"`  // storage flavour: an in-memory storage that passes the value slices it holds itself to SetCustomAttribute (no copy per call)
-	TypedNil    bool      `json:"typedNil,omitempty"`   // storage flavour: a failing request lookup / persist returns its error next to a typed nil pointer (var r *record; return r, err)
-	Neighbours  bool      `json:"neighbours,omitempty"` // other provider instances (other issuer, other endpoint paths) are constructed in the same process
-	Shadow      bool      `json:"shadow,omitempty"`     // compare every undisturbed reply with a re-execution on a fresh provider instance (shadow.go)
+	Replicas       int       `json:"replicas"`
+	IDP            IDPCfg    `json:"idp"`
+	SPs            []SPCfg   `json:"sps"`
+	Rogue          SPCfg     `json:"rogue"`
+	Users          []UserCfg `json:"users"`
+	UUIDKey        uint64    `json:"uuidKey"`
+	RealUUID       bool      `json:"realUUID,omitempty"`
+	EpochMs        int64     `json:"epochMs"`
+	ParkWrites     bool      `json:"parkWrites,omitempty"`
+	ParkBody       bool      `json:"parkBody,omitempty"`
+	SharedSP       bool      `json:"sharedSP,omitempty"`   // storage hands out one shared *ServiceProvider per registration
+	NilUnknown     bool      `json:"nilUnknown,omitempty"` // storage flavour: an unknown entity is reported as (nil, nil) instead of an error
+	Presessions    []Preseed `json:"presessions,omitempty"`
+	CtxAware       bool      `json:"ctxAware,omitempty"`       // storage flavour: a call whose context is done when it gets to run returns the context's error
+	TenantKeys     bool      `json:"tenantKeys,omitempty"`     // storage flavour: signing keys are per tenant, found through the issuer value of the context
+	TenantSessions bool      `json:"tenantSessions,omitempty"` // storage flavour: stored requests are kept per tenant (the issuer value of the context); ids are per-tenant counters, so the same id exists in several tenants
+	OwnSlices      bool      `json:"ownSlices,omitempty"`      // storage flavour: an in-memory storage that passes the value slices it holds itself to SetCustomAttribute (no copy per call)
+	TypedNil       bool      `json:"typedNil,omitempty"`       // storage flavour: a failing request lookup / persist returns its error next to a typed nil pointer (var r *record; return r, err)
+	Neighbours     bool      `json:"neighbours,omitempty"`     // other provider instances (other issuer, other endpoint paths) are constructed in the same process
+	Shadow         bool      `json:"shadow,omitempty"`         // compare every undisturbed reply with a re-execution on a fresh provider instance (shadow.go)
 }
 
 // Preseed is a stored auth request that exists before the run starts (a
